@@ -14,6 +14,7 @@ import Ioc.Generated.Facts
 import IocProofs.Lemmas.SemRefresh
 import IocProofs.Lemmas.Order
 import IocProofs.Lemmas.SemOrder
+import IocProofs.Lemmas.SemSmall
 namespace Ioc.C10
 open Ioc Ioc.Tag Ioc.Match
 
@@ -275,5 +276,32 @@ theorem C10_code_comparator_strict (part : Nat → Order.Part) (i j : Nat) :
     Go.run (Sem.cmpPrims part) Progs.orderedComponentComparator [.ref i 0, .ref j 0] () =
       (Order.less? part i j).map (fun b => (.bool b, ())) :=
   Sem.comparator_sem part i j
+
+/-! ### where the enumeration orders come from: the registry readers and GetAllProperties, REGENERATED (interpretation
+    Ioc.SemSmall: a map is the list of its entries in the order in which this run enumerates them) -/
+section readers
+open Ioc.Go Ioc.Sem
+
+/-- GetSingletonNames returns the names in the order in which the map enumerates its entries — NOTHING else orders them (this
+    is the order PrepareComponents walks, `C12_code_PrepareComponents`); GetSingleton / ContainsSingleton / GetSingletonCount
+    read the same map and change nothing -/
+theorem C10_code_registry_readers (w : CMap) :
+    run srPrims Progs.sreg_GetSingletonNames [] w = some (strsNil (w.map (·.1)), w) ∧
+    run srPrims Progs.sreg_GetSingletonCount [] w = some (.int w.length, w) ∧
+    (∀ n, run srPrims Progs.sreg_GetSingleton [.str n] w =
+      some (match cmLoad w n with
+            | some j => .tuple [.ref j 0, .nil]
+            | none => .tuple [.nil, .str ("singleton not exist: " ++ n)], w)) ∧
+    (∀ n, run srPrims Progs.sreg_ContainsSingleton [.str n] w = some (.bool (cmLoad w n).isSome, w)) :=
+  ⟨sregNames_sem w, sregCount_sem w, fun n => sregGetSingleton_sem n w, fun n => sregContains_sem n w⟩
+
+/-- GetAllProperties concatenates the property groups in the order in which the map range enumerates them: across types the
+    order of its result is that of the map iteration (within a type: the order of the group) -/
+theorem C10_code_GetAllProperties (gs : List (String × List Nat)) :
+    run (gaPrims gs) Progs.meta_GetAllProperties [] () =
+      some (propsAcc (gs.foldl (fun a g => gaAcc a g.2) none), ()) :=
+  getAllProperties_sem gs
+
+end readers
 
 end Ioc.C10
